@@ -84,6 +84,15 @@ def gen_programs(rng, pairs_everywhere):
                               H.A('MACH_MKRUNNABLE', H.NONE, (other, 31, 0, 1)),
                               H.A('MACH_STKHANDOFF', H.NONE, (0, other, 31, 31))))
             programs[t].insert(rng.randrange(len(programs[t]) + 1), rec)
+    # a sampler on another thread reports a freshly announced child under the SAME pid its parent announces (both are
+    # true statements about the child; only the tid -> pid table is touched)
+    announced = [(t, a[2][0], a[2][1]) for t in range(nthreads) for a in programs[t]
+                 if a[0] == 'TRACE_DATA_NEWTHREAD' and not isinstance(a[2], bytes)]
+    if announced and rng.random() < 0.5:
+        t, child, pid = rng.choice(announced)
+        o = rng.choice([x for x in range(nthreads) if x != t])
+        if len(programs[o]) < 10:
+            programs[o].insert(rng.randrange(len(programs[o]) + 1), H.thd_data(pid, child))
     if kernel_thread is not None:
         # the kernel thread announces a child under pid 0 while another thread's sampler / new-thread record maps the
         # kernel thread itself to that other thread's (non-zero) pid
